@@ -480,6 +480,11 @@ func (m *Machine) visitInstr(fr *frame, instr ssa.Instruction) continuation {
 		fr.env[instr] = &Map{ktype: instr.Type().Underlying().(*types.Map).Key()}
 
 	case *ssa.Range:
+		if m.lockset != nil && m.locksetOn {
+			if mp, ok := fr.get(instr.X).(*Map); ok && mp != nil {
+				m.lockset.access(m, mp, false, instr.Pos())
+			}
+		}
 		fr.env[instr] = m.rangeIter(fr, fr.get(instr.X), instr.X.Type())
 
 	case *ssa.Next:
@@ -510,12 +515,20 @@ func (m *Machine) visitInstr(fr *frame, instr ssa.Instruction) continuation {
 		fr.env[instr] = m.index(fr, instr, fr.get(instr.X), fr.get(instr.Index))
 
 	case *ssa.Lookup:
+		if m.lockset != nil && m.locksetOn {
+			if mp, ok := fr.get(instr.X).(*Map); ok && mp != nil {
+				m.lockset.access(m, mp, false, instr.Pos())
+			}
+		}
 		fr.env[instr] = m.lookup(fr, instr, fr.get(instr.X), fr.get(instr.Index))
 
 	case *ssa.MapUpdate:
 		mp := fr.get(instr.Map).(*Map)
 		if mp == nil {
 			panic(targetPanic{v: Iface{t: m.P.runtimeErrorString, v: MkStr("assignment to entry in nil map")}, pos: m.pos(instr.Pos())})
+		}
+		if m.lockset != nil && m.locksetOn {
+			m.lockset.access(m, mp, true, instr.Pos())
 		}
 		m.mapInsert(mp, fr.get(instr.Key), copyVal(fr.get(instr.Value)))
 
@@ -553,7 +566,7 @@ func (m *Machine) load(fr *frame, pos token.Pos, p Value) Value {
 		if p == nil {
 			m.runtimePanic(fr, pos, "invalid memory address or nil pointer dereference")
 		}
-		if m.lockset != nil {
+		if m.lockset != nil && m.locksetOn {
 			m.lockset.access(m, p, false, pos)
 		}
 		return copyVal(*p)
@@ -569,7 +582,7 @@ func (m *Machine) store(fr *frame, pos token.Pos, p Value, v Value) {
 		if p == nil {
 			m.runtimePanic(fr, pos, "invalid memory address or nil pointer dereference")
 		}
-		if m.lockset != nil {
+		if m.lockset != nil && m.locksetOn {
 			m.lockset.access(m, p, true, pos)
 		}
 		*p = copyVal(v)
